@@ -309,7 +309,9 @@ func c16Run(in V) V {
 		return true
 	}
 	for _, r := range results {
-		if r.ok && (r.want == nil || r.cur() != string(r.want)) {
+		// (a successfully decoded binary is never a nil slice, whatever the allocator setting: the
+		// empty value is an allocated empty slice — generated code tells "absent" from "empty" by nil)
+		if r.ok && (r.want == nil || r.cur() != string(r.want) || (r.isbin && r.b == nil)) {
 			r.bits &^= 1
 		}
 	}
